@@ -23,6 +23,8 @@ mod c08;
 mod c09;
 mod c17;
 mod c19;
+mod c01;
+mod c04;
 
 use std::io::{BufWriter, Write};
 
@@ -59,6 +61,8 @@ fn main() {
                 "C09" => c09::gen(tier, seed, &mut out),
                 "C17" => c17::gen(tier, seed, &mut out),
                 "C19" => c19::gen(tier, seed, &mut out),
+                "C01" => c01::gen(tier, seed, &mut out),
+                "C04" => c04::gen(tier, seed, &mut out),
                 _ => {
                     eprintln!("unknown property {}", prop);
                     std::process::exit(2);
@@ -174,6 +178,17 @@ fn replay_one(toks: &[&str]) -> String {
         "C19" => {
             let scratch = c19::scratch();
             let r = c19::observe(&toks[1..], &scratch, 100);
+        "C01" => {
+            let scratch = common::scratch_root().join("c01r");
+            std::fs::create_dir_all(&scratch).unwrap();
+            let r = c01::observe(&toks[1..], &scratch);
+            common::rm_rf(&scratch);
+            r
+        }
+        "C04" => {
+            let scratch = common::scratch_root().join("c04r");
+            std::fs::create_dir_all(&scratch).unwrap();
+            let r = c04::observe(&toks[1..], &scratch);
             common::rm_rf(&scratch);
             r
         }
